@@ -6,4 +6,5 @@ const (
 	tokADD = token.ADD
 	tokMUL = token.MUL
 	tokQUO = token.QUO
+	tokSUB = token.SUB
 )
